@@ -38,6 +38,12 @@ def lwl_post(ctx):
         I, lambda I_, data, m: I_.call(I_.getattr(m, "log_weighted_likelihood"), [data], {}),
         lambda: ([G.mk_data(), G.mk_gmm(I)], {}), G.spec_log_weighted_likelihood, G.facts(), "C01.lwl.post.method")
     out += cl
+    # one sample given as a 1-d vector: one value per component, shape (C, 1)
+    for target in ("function", "method"):
+        I = new_interp()
+        tgt = "gmm.log_weighted_likelihood" if target == "function" else (lambda I_, data, m: I_.call(I_.getattr(m, "log_weighted_likelihood"), [data], {}))
+        out += K.check_function(I, tgt, lambda I=I: ([G.mk_data(ndim=1), G.mk_gmm(I)], {}), G.spec_log_weighted_likelihood, G.facts(),
+                                "C01.lwl.post.single." + target, state_names={1: "machine"})
     # integer-typed samples: same value, nothing computed in the samples' own integer dtype
     I = new_interp()
     out += K.check_function(I, "gmm.log_weighted_likelihood", lambda: ([G.mk_data(intdata=True), G.mk_gmm(I)], {}),
